@@ -369,7 +369,44 @@ class Engine(_Base, ExprMixin, CallMixin, StmtMixin):
         st.frames[fid].update(env)
         return st, env
 
+    @staticmethod
+    def ordered_locals(node):
+        """names bound in the function body (not in nested functions), in source order of their first binding"""
+        found = []
+
+        def visit(n):
+            for ch in ast.iter_child_nodes(n):
+                if isinstance(ch, (ast.FunctionDef, ast.AsyncFunctionDef, ast.Lambda, ast.ClassDef)):
+                    if isinstance(ch, (ast.FunctionDef, ast.AsyncFunctionDef, ast.ClassDef)):
+                        found.append((ch.lineno, ch.col_offset, ch.name))
+                    continue
+                if isinstance(ch, ast.Name) and isinstance(ch.ctx, ast.Store):
+                    found.append((ch.lineno, ch.col_offset, ch.id))
+                if isinstance(ch, ast.ExceptHandler) and ch.name:
+                    found.append((ch.lineno, ch.col_offset, ch.name))
+                visit(ch)
+        visit(node)
+        out = []
+        for _, _, name in sorted(found):
+            if name not in out:
+                out.append(name)
+        return out
+
+    def set_local_aliases(self, c, info):
+        from .state import ALIASES
+        ALIASES.clear()
+        self.local_names = self.ordered_locals(info.node) if getattr(info, 'node', None) is not None else []
+        was = (getattr(self.reg, 'baseline_locals', None) or {}).get(c.target)
+        self.renamed_locals = {}
+        if was and len(was) == len(self.local_names) and was != self.local_names:
+            ren = {o: n for o, n in zip(was, self.local_names) if o != n}
+            # a pure renaming: the old names are gone and the new ones did not exist before
+            if all(o not in self.local_names for o in ren) and all(n not in was for n in ren.values()):
+                ALIASES.update(ren)
+                self.renamed_locals = ren
+
     def _verify(self, c, info):
+        self.set_local_aliases(c, info)
         st, env = self.entry_state_for(c, info)
         post_setup = None
         if c.setup is not None:
